@@ -92,6 +92,29 @@ def isErrMisfit (m : XmlSpec.Misfit) : String :=
 
 def xsiType : Bytes := t_xsi_x3Atype
 
+/-- classification only: the clause of well-formedness an accepted ill-formed document breaks, from the reason the
+independent reader (`XmlSpec.parse`) gives. The bundle `xml-illformed-accepted` is listed (and repaired) per clause:
+the class is `xml-illformed-accepted:<clause>`; a reason without a clause of its own keeps the bare class. -/
+def illClause (why : String) : String :=
+  if why ∈ ["no root element", "second root element", "unclosed element", "unmatched end tag", "mismatched end tag"]
+  then ":document-element"                          -- [1] document: exactly one root element, properly nested
+  else if why ∈ ["attribute without =", "attribute value not quoted", "attribute without value",
+      "unterminated attribute value", "duplicate attribute"]
+  then ":attribute-syntax"                          -- [41] Attribute, [10] AttValue quoted; WFC unique att spec
+  else if why ∈ ["attribute name", "no white space before attribute", "attributes"]
+  then ":attribute-name"                            -- [40] STag: S before each attribute, [5] Name
+  else if why ∈ ["< in attribute value", "bad reference in attribute value"]
+  then ":attribute-value"                           -- [10] AttValue; WFC no < in attribute values, entity declared
+  else if why = "bad reference in character data" then ":reference"   -- [66]–[68]; WFC entity declared, legal character
+  else if why ∈ ["illegal character", "not UTF-8"] then ":character"  -- [2] Char, §4.3.3 encoding
+  else if why = "]]> in character data" then ":cdata-end"             -- [14] CharData
+  else if why = "-- inside comment" then ":comment"                   -- [15] Comment
+  else if why ∈ ["PI target", "XML declaration not at the start / reserved PI target", "XMLDecl without version", "XMLDecl"]
+  then ":pi"                                        -- [16] PI, [17] PITarget, [23] XMLDecl
+  else if why ∈ ["misplaced DOCTYPE", "DOCTYPE name", "< in DOCTYPE", "unknown <! markup"]
+  then ":doctype"                                   -- [22] prolog, [28] doctypedecl
+  else ""
+
 def misfitIsXsi : XmlSpec.Misfit → Bool
   | .unknownElement n => n = xsiType
   | .requiredMissing n => n = xsiType
@@ -164,7 +187,7 @@ def specJudge (XS : XmlSpec.SpecExt) (t : Ty) (doc : Bytes) (status payload : St
         -- the class is no longer listed as open, so any case of it is a violation)
         if why = "ill:text outside the root element" || why = "ill:CDATA outside the root element" then
           some ("xml-text-outside-root", "accepted: " ++ why)
-        else some ("xml-illformed-accepted", "accepted: " ++ why)
+        else some ("xml-illformed-accepted" ++ illClause (why.drop 4).toString, "accepted: " ++ why)
       else if why.endsWith ":xsi" then some ("xml-xsi-type", "accepted: " ++ why)
       else if valueInterrupted.toBool && valueInterrupted != docV then
         some (interruptClass, "accepted although the document does not fit the type (" ++ why ++ "); it fits once the interrupted text is dropped")
